@@ -30,7 +30,7 @@ ASSUMPTIONS = ["only values the documentation places clearly inside or outside a
                "integral float for int, no RandomState instances where the docs and the validation disagree)"]
 EVAL_COUNTER = "probes"
 REQUIRED = {"quick": {"probes": 2500, "rejected_ok": 1200, "accepted_ok": 500, "group_lists": 400, "malformed_rejected": 100,
-                      "unfitted_refused": 50, "rejected_state_checked": 1000},
+                      "unfitted_refused": 50, "rejected_state_checked": 1000, "mlcl_sets_probed": 600},
             "thorough": {"probes": 8000}}
 SHARD_TIMEOUT = {"quick": 1200, "thorough": 7000}
 
@@ -114,6 +114,7 @@ def cases(tier, seed):
     out = [{"kind": "estimator", "seed": seed, "name": n} for n in gen.ESTIMATORS]
     out += [{"kind": "geminis", "seed": seed}, {"kind": "functions", "seed": seed}, {"kind": "malformed", "seed": seed},
             {"kind": "unfitted", "seed": seed}, {"kind": "combos", "seed": seed}]
+    out += [{"kind": "mlcl-sets", "seed": seed, "part": k} for k in range(2 if tier == "quick" else 20)]
     out += [{"kind": "groups", "seed": seed, "d": d, "ng": g} for d in (1, 2, 3, 4) for g in (1, 2, 3)]
     if tier == "thorough":
         out += [{"kind": "pairwise", "seed": seed, "name": n, "part": k} for n in gen.ESTIMATORS for k in range(4)]
@@ -366,6 +367,38 @@ def run_case(case, ctx, st):
                                       observed={"probe": pname(v), "outcome": outcome}, expected=expect)
                     else:
                         ctx.count("accepted_ok" if expect == "accept" else "rejected_ok")
+    elif case["kind"] == "mlcl-sets":
+        # must_link / cannot_link are arguments of a validated function like any other: sets that contradict themselves
+        # (a cannot-link pair inside a must-link component, a sample paired with itself) are outside its domain, and a
+        # model handed back for them would be trained under them.  Random sets over 4..7 samples, ground truth by union-find.
+        from gemclus import add_mlcl_constraint
+        from gemclus.linear import LinearModel
+        from .c14 import ref_valid
+        for rep in range(400):
+            m = int(rng.integers(4, 8))
+            ids = [int(x) for x in rng.choice(60, size=m, replace=False)]
+            allp = [(ids[a], ids[b]) for a in range(m) for b in range(m) if a != b]
+            ml = [allp[int(x)] for x in rng.integers(0, len(allp), size=int(rng.integers(1, 6)))]
+            cl = [allp[int(x)] for x in rng.integers(0, len(allp), size=int(rng.integers(1, 4)))]
+            if rng.random() < 0.08:
+                cl.append((ids[0], ids[0]))
+            want = "accepted" if ref_valid(ml, cl) else "rejected"
+            ctx.case = dict(case, must_link=ml, cannot_link=cl)
+            ctx.count("probes")
+            ctx.count("mlcl_sets_probed")
+            ctx.distinct("mlcl-set", tuple(ml), tuple(cl))
+            try:
+                add_mlcl_constraint(LinearModel(), ml, cl, 1.0)
+                outcome = "accepted"
+            except (ValueError, TypeError):
+                outcome = "rejected"
+            except Exception as e:
+                outcome = "other:" + type(e).__name__
+            if outcome != want:
+                ctx.violation("validated-function", f"function-{'rejects-in-domain' if want == 'accepted' else 'accepts-out-of-domain'}/add_mlcl_constraint/constraint-set",
+                              observed={"must_link": ml, "cannot_link": cl, "outcome": outcome}, expected=want)
+            else:
+                ctx.count("accepted_ok" if want == "accepted" else "rejected_ok")
     elif case["kind"] == "malformed":
         good = gen.make_data(rng, 9, 3, "blobs")
         bads = {"nan": np.where(np.arange(27).reshape(9, 3) == 4, np.nan, good), "inf": np.where(np.arange(27).reshape(9, 3) == 5, np.inf, good),
